@@ -274,6 +274,12 @@ def check_forest(pid, forest, cfg, L, cyclic, pmap, viol, kind, txt, bump, parse
                 break
         return
     if pid in ("C02", "C17"):
+        # (the reference enumeration is explicit: count first, a few grammars of the thorough scope have millions
+        # of prefix derivations for one input and exhausted the worker's memory limit)
+        n_ref = L.count_sentence_trees() if pid == "C02" else L.count_prefix_trees()
+        if n_ref > MAX_TREES * 5:
+            bump("reference_forest_too_large")
+            return
         if pid == "C02":
             ref = L.sentence_trees()
         else:
